@@ -6,7 +6,7 @@
 namespace scen_pool {
 
 enum { K_COAWAIT, K_COAWAIT_AWT_READY, K_COAWAIT_AWT_PENDING, K_RUN_FN, K_RUN_DETACHED, K_RUN_ASYNC, K_RESUME_SP, K_COUNT };
-struct Job { uint8_t kind, yields, where; uint8_t again = 0; uint8_t big = 0; };   // big (run / run_detached): the closure is larger than the pool's small-object space (heap instance instead of in-place)   // again (co_await pool only): once on a worker the coroutine re-submits itself with co_await thread_pool::current()     // where: 0 submitted by the owner thread, 1 by a second submitter thread
+struct Job { uint8_t kind, yields, where; uint8_t again = 0; uint8_t big = 0; uint8_t conc = 0; };   // conc (pool(pending awaitable)): the awaitable is resolved by a helper thread, possibly while the coroutine is still suspending on it   // big (run / run_detached): the closure is larger than the pool's small-object space (heap instance instead of in-place)   // again (co_await pool only): once on a worker the coroutine re-submits itself with co_await thread_pool::current()     // where: 0 submitted by the owner thread, 1 by a second submitter thread
 struct Prog { uint8_t workers; std::vector<Job> jobs; uint8_t stop_who; uint8_t stop_pos; uint8_t stop_yields; };
 // stop_who: 0 destructor only, 1 owner calls stop() before job #stop_pos, 2 a pool job calls stop(), 3 owner stop() at the end then destructor
 
@@ -24,6 +24,7 @@ inline Prog decode(hz::Reader &r, bool allow_self_stop) {
     for (unsigned i = 0; i < n; i++) p.jobs[i].where = (wmask >> i) & 1;
     uint8_t amask = r.u8();
     for (unsigned i = 0; i < n; i++) p.jobs[i].again = (uint8_t)(p.jobs[i].kind == K_COAWAIT && ((amask >> i) & 1));
+    for (unsigned i = 0; i < n; i++) p.jobs[i].conc = (uint8_t)(p.jobs[i].kind == K_COAWAIT_AWT_PENDING && ((amask >> (i + 4)) & 1));
     for (unsigned i = 0; i < n; i++) p.jobs[i].big = (uint8_t)((p.jobs[i].kind == K_RUN_FN || p.jobs[i].kind == K_RUN_DETACHED) && ((amask >> (i + 4)) & 1));
     return p;
 }
@@ -31,7 +32,7 @@ inline std::string describe(const Prog &p) {
     static const char *kn[] = {"co_await pool", "co_await pool(ready awaitable)", "co_await pool(pending awaitable)", "run(fn)", "run_detached(fn)", "run(async)", "resume(suspend_point)"};
     static const char *sw[] = {"destructor only", "owner stop() before job #", "a pool job calls stop() after job #", "owner stop() after all jobs, then destructor"};
     hz::Desc d; d << "pool(" << (unsigned)p.workers << " workers); jobs:";
-    for (auto &j : p.jobs) d << " [" << (j.where ? "2nd thread, " : "") << "yield*" << (unsigned)j.yields << ", " << kn[j.kind] << (j.again ? ", then co_await thread_pool::current()" : "") << (j.big ? ", 128-byte closure" : "") << "]";
+    for (auto &j : p.jobs) d << " [" << (j.where ? "2nd thread, " : "") << "yield*" << (unsigned)j.yields << ", " << kn[j.kind] << (j.again ? ", then co_await thread_pool::current()" : "") << (j.big ? ", 128-byte closure" : "") << (j.conc ? ", awaitable resolved by a helper thread" : "") << "]";
     d << "; stop: " << sw[p.stop_who];
     if (p.stop_who == 1 || p.stop_who == 2) d << (unsigned)p.stop_pos;
     return d.s;
@@ -43,6 +44,7 @@ struct JRec {
     int ran2 = 0, cancelled2 = 0; bool on_worker2 = false;     // second stage: after co_await thread_pool::current()
     bool on_worker = false;
     int t_submit_begin = 0, t_submit_end = 0, t_ran = 0;
+    int t_start_ret = 0;      // conc variant: when start() of the coroutine returned to the submitter
     long guards_live = 0; int guard_called = 0;
 };
 
@@ -110,6 +112,14 @@ inline void submit(Ctx &c, int i) {
         case K_COAWAIT_AWT_PENDING: {
             c.gates[u].reset(new cocls::future<int>());
             cocls::promise<int> pr = c.gates[u]->get_promise();
+            if (c.p->jobs[u].conc) {
+                // the awaited operation completes on another thread - possibly in the middle of the coroutine's suspension
+                std::thread helper([pr = std::move(pr)]() mutable { hz::upoint(); pr(5); });
+                c.co_done[u].reset(new cocls::future<void>(job_coawait_awt(c, i, c.gates[u].get()).start()));
+                r.t_start_ret = hz::tick();
+                helper.join();
+                break;
+            }
             c.co_done[u].reset(new cocls::future<void>(job_coawait_awt(c, i, c.gates[u].get()).start()));
             hz::upoint();
             pr(5);            // perform_resume -> pool.resume(...)
@@ -221,7 +231,11 @@ inline void run(hz::Reader &rd, bool allow_self_stop) {
             bool has_cancel_channel = r.kind == K_COAWAIT || r.kind == K_RUN_FN || r.kind == K_RUN_DETACHED || r.kind == K_RUN_ASYNC;
             if (r.ran && has_cancel_channel)
                 HZ_CHECK(r.on_worker, "job %zu (kind %d) ran, but not on one of the pool's worker threads", i, r.kind);
-            if (r.ran && !r.on_worker && (r.kind == K_COAWAIT_AWT_PENDING || r.kind == K_RESUME_SP))
+            // (documented: if the awaited operation is already resolved when the coroutine gets to it, no thread is allocated
+            // and execution continues in the current thread - with a helper thread resolving concurrently that can happen:
+            // then the coroutine ran without suspending, i.e. before start() returned to the submitter)
+            bool ran_inline = r.t_start_ret && r.t_ran < r.t_start_ret;
+            if (r.ran && !r.on_worker && !ran_inline && (r.kind == K_COAWAIT_AWT_PENDING || r.kind == K_RESUME_SP))
                 HZ_CHECK(r.t_ran > c.t_stop_begin, "job %zu (kind %d) ran outside the pool's workers although the pool had not been stopped yet", i, r.kind);
             if (r.ran && r.t_ran > c.t_stop_begin && r.t_ran < c.t_stop_end) overlap = true;
             if (r.t_submit_end > c.t_stop_begin && r.t_submit_end < c.t_stop_end + 2) overlap = true;
